@@ -87,6 +87,11 @@ pub fn span_offset() -> impl Strategy<Value = Span> {
     })
 }
 
+/// ordinary lengths far from the origin: |x0| = 10^U[5,12], length 0.1..20 (at least 6400 ulps of x0, else x0 = 0)
+pub fn span_far() -> impl Strategy<Value = Span> {
+    (fr(5.0, 12.0), any::<bool>(), fr(0.1, 20.0), any::<bool>()).prop_map(|(e, neg, len, back)| mk_span(if neg { -(10f64.powf(e)) } else { 10f64.powf(e) }, len, back))
+}
+
 /// whether a fixed-step RK4 with span/100 (or finer) steps can advance on this span
 pub fn rk4_can_step(sp: &Span) -> bool {
     sp.len() >= 640_000.0 * ulp(sp.x0.abs().max(sp.xend.abs()))
